@@ -151,6 +151,7 @@ def generate(rng, directory, tag):
     for k in range(rng.randrange(0, 3)):
         helpers.append(gen_helper(rng, main, k))
     entry = "router" if rng.random() < .3 else "program"
+    repeats = {}
     mode = "app"
     version = rng.choice([5, 6, 7, 8, 9, 10]) if entry == "program" else rng.choice([6, 7, 8, 10])
     if entry == "program":
@@ -158,6 +159,13 @@ def generate(rng, directory, tag):
         main.add("    t = pt.ScratchVar(pt.TealType.uint64)")
         main.add("    return pt.Seq(")
         main.add("        t.store(%s)," % main.int_marker())
+        # the same (non-marker) values written on several consecutive lines: each occurrence must be attributed to its own line
+        # (with assembleConstants they become constant-block loads that look alike)
+        for rep in range(rng.choice([0, 1, 1, 2])):
+            val = 900_000_000 + rng.randrange(1000) * 10 + rep
+            for _ in range(rng.choice([2, 3, 5])):
+                repeats.setdefault(str(val), []).append([0, main.lineno()])
+                main.add("        pt.Pop(pt.Int(%d))," % val)
         for _ in range(rng.randrange(1, 7)):
             if rng.random() < .15:
                 main.pad(rng, big=rng.random() < .3)
@@ -204,7 +212,8 @@ def generate(rng, directory, tag):
         with open(p, "w") as f:
             f.write("\n".join(s.lines) + "\n")
         paths.append(p)
-    return {"main": main.name, "files": paths, "entry": entry, "version": version, "mode": mode, "nlines": [len(s.lines) for s in srcs]}
+    return {"main": main.name, "files": paths, "entry": entry, "version": version, "mode": mode, "nlines": [len(s.lines) for s in srcs], "repeats": repeats,
+            "assemble": version >= 3 and rng.random() < .4}
 
 
 def marker_of_int(n):
